@@ -39,6 +39,7 @@ type solver struct {
 	stats    *solverStats
 	logf     *os.File // optional query log (SMT-LIB transcript)
 	timeoutMs int
+	onAssert  func(t *term)
 }
 
 type solverStats struct {
@@ -145,6 +146,9 @@ func (s *solver) assert(t *term) {
 	s.define(t)
 	s.send("(assert " + t.ref() + ")\n")
 	s.asserted = append(s.asserted, t)
+	if s.onAssert != nil {
+		s.onAssert(t)
+	}
 }
 
 func (s *solver) readLine() string {
